@@ -653,6 +653,20 @@ func (c *Ctx) sortedByCaller(fi *load.FuncInfo) {
 					sorted = true
 				}
 			}
+			// ... and the variable is not given another value between the sort and the call (a fresh listing is in name order)
+			if sorted && arg != nil {
+				var sortPos token.Pos
+				for k, s := range cfi.Decl.Body.List {
+					if es, ok := s.(*ast.ExprStmt); ok && k < ti {
+						if sc, ok := es.X.(*ast.CallExpr); ok && gf.StaticCallee(info, sc) == sortFn && rootIdent(sc.Args[0]) != nil && info.ObjectOf(rootIdent(sc.Args[0])) == info.ObjectOf(arg) {
+							sortPos = es.End()
+						}
+					}
+				}
+				if assignedBetween(info, cfi.Decl.Body, info.ObjectOf(arg), sortPos, call.Pos()) {
+					sorted = false
+				}
+			}
 			c.Check(sorted, "C13.2-sorted-by-caller", name, call.Pos(), "the caller sorts the same slice with SortControllerRevisions before", "the revisions passed to history truncation are not sorted by the caller")
 		}
 	}
